@@ -87,7 +87,9 @@ func (rm *RpcMultiplexer) CallUnaryMethod(
 
 	respChan := make(chan *goatorepo.Rpc, 1)
 
-	rm.registerHandler(streamId, respChan)
+	if err := rm.registerHandler(streamId, respChan); err != nil {
+		return nil, err
+	}
 	defer rm.unregisterHandler(streamId)
 
 	rpc := goatorepo.Rpc{
@@ -148,7 +150,9 @@ func (rm *RpcMultiplexer) NewStreamReadWriter(
 	streamId := atomic.AddUint64(&rm.streamCounter, 1)
 
 	respChan := make(chan *goatorepo.Rpc, 1)
-	rm.registerHandler(streamId, respChan)
+	if err := rm.registerHandler(streamId, respChan); err != nil {
+		return 0, nil, nil, err
+	}
 
 	teardown := func() {
 		rm.unregisterHandler(streamId)
@@ -208,11 +212,18 @@ func (rm *RpcMultiplexer) handleResponse(rpc *goatorepo.Rpc) {
 	ch <- rpc
 }
 
-func (rm *RpcMultiplexer) registerHandler(id uint64, c chan *goatorepo.Rpc) {
+// registerHandler fails if the read loop has already failed: a handler
+// registered after closeError has run would never be closed.
+func (rm *RpcMultiplexer) registerHandler(id uint64, c chan *goatorepo.Rpc) error {
 	rm.mutex.Lock()
 	defer rm.mutex.Unlock()
 
+	if rm.rErr != nil {
+		return rm.rErr
+	}
+
 	rm.handlers[id] = c
+	return nil
 }
 
 func (rm *RpcMultiplexer) unregisterHandler(id uint64) {
